@@ -103,7 +103,11 @@ func propC19(c *Ctx) {
 				n, _ := nilTestEdges(call)
 				cuts.addEdges(n)
 			case staticCallee(call) == isLoopback:
-				if _, isP := call.Call.Args[0].(*ssa.Parameter); isP && sc == notLoopback {
+				_, isP := call.Call.Args[0].(*ssa.Parameter)
+				if lf, base := loadedField(stripConv(call.Call.Args[0])); lf != nil && lf.Name() == "RemoteAddr" {
+					_, isP = base.(*ssa.Parameter) // the request's own address handed over as a string
+				}
+				if isP && sc == notLoopback {
 					t, _ := boolEdges(call)
 					cuts.addEdges(t)
 				}
@@ -412,7 +416,8 @@ func propC19(c *Ctx) {
 			if b.Op == token.NEQ {
 				t = f
 			}
-			if call.Parent() == login {
+			if h := call.Parent(); h == login || h.Signature.Results().Len() != 1 {
+				// in Login itself, or in a part of Login that was split off (loginSubmit): the edges guard in place
 				cmpOK = append(cmpOK, t...)
 				continue
 			}
@@ -496,14 +501,45 @@ func propC19(c *Ctx) {
 				if _, isParam := base.(*ssa.Parameter); f != nil && f.Name() == "RemoteAddr" && isParam {
 					okAddr = true
 				}
+				// or the address is the function's string parameter and every caller passes its request's RemoteAddr
+				if p, isP := stripConv(sp.Call.Args[0]).(*ssa.Parameter); isP && p.Parent() == isLoopback {
+					callers := NewResolver(w).CallersOf(isLoopback)
+					all := len(callers) > 0
+					for _, cs := range callers {
+						a := cs.Common().Args[paramIndex(p)]
+						lf, b2 := loadedField(stripConv(a))
+						if lf == nil || lf.Name() != "RemoteAddr" || !repoOrHTTPRequest(b2) {
+							all = false
+						}
+					}
+					okAddr = all
+				}
 				if ev, ok := errResult(sp); ok && ev != nil {
 					_, nn := nilTestEdges(ev)
 					okErr = len(nn) > 0
 					for _, e := range nn {
 						if ret, ok := terminator(e.To).(*ssa.Return); ok {
-							if cst, ok := returnValues(ret)[0].(*ssa.Const); !ok || cst.Value == nil || cst.Value.String() != "false" {
-								okErr = false
+							rv := returnValues(ret)[0]
+							isFalse := func(v ssa.Value) bool {
+								cst, ok := v.(*ssa.Const)
+								return ok && cst.Value != nil && cst.Value.String() == "false"
 							}
+							if isFalse(rv) {
+								continue
+							}
+							// `return err == nil && …`: the value that arrives over this edge is false
+							if ph, isPhi := rv.(*ssa.Phi); isPhi && ph.Block() == e.To {
+								okEdge := false
+								for i, pr := range e.To.Preds {
+									if pr == e.From && isFalse(ph.Edges[i]) {
+										okEdge = true
+									}
+								}
+								if okEdge {
+									continue
+								}
+							}
+							okErr = false
 						} else {
 							okErr = false
 						}
@@ -575,4 +611,13 @@ func propC19(c *Ctx) {
 		}
 	}
 	c.Check("R19.5", "New/fresh-identity", newFn.Pos(), okKey, "the cookie key is generated by age.GenerateX25519Identity() at construction")
+}
+
+// repoOrHTTPRequest: base is a *net/http.Request value (a handler's request)
+func repoOrHTTPRequest(base ssa.Value) bool {
+	t := base.Type()
+	if p, ok := t.Underlying().(*types.Pointer); ok {
+		t = p.Elem()
+	}
+	return namedIs(t, "net/http", "Request")
 }
